@@ -29,7 +29,7 @@ Qed.
 Ltac unfold_steps :=
   unfold enter, exit_cm, lift_enter, try_enter, try_exit, await_enter, await_exit, hr_enter, hr_exit_pop,
          sbind, add_depth, set_flag, guard_not_awaiting, push_awaiting, pop_assert_awaiting,
-         push_handler, pop_assert_handler, reset_nry_at_depth0, push_cycles_frame, pop_cycles_frame in *.
+         push_handler, pop_assert_handler, reset_nry_at_depth0, push_cycles_frame in *.
 
 (* __enter__ raising leaves the state as it was (and __exit__ is not called) *)
 Lemma enter_raise_unchanged : forall c s e s',
@@ -51,9 +51,11 @@ Proof.
   - inversion He; subst; simpl in *. subst. repeat split; simpl; try reflexivity; try lia; assumption.
   - destruct (fl d || kc_mem d _) eqn:F0; inversion He; subst; simpl in *. subst.
     apply orb_false_iff in F0. destruct F0 as [F _].
-    rewrite N.eqb_refl. simpl. destruct fc2 as [|l r]; simpl in E5; [discriminate|]. simpl.
-    repeat split; simpl; try reflexivity; try lia.
-    intros x. rewrite E4. destruct (N.eqb_spec x d) as [->|N]; [rewrite F|]; reflexivity.
+    rewrite N.eqb_refl. simpl. destruct fc2 as [|l r]; simpl in E5; [discriminate|]. unfold pop_cycles_frame. simpl.
+    assert (X : forall x, (if (x =? d)%N then false else fl2 x) = fl x).
+    { intros x. rewrite E4. destruct (N.eqb_spec x d) as [->|N]; [rewrite F|]; reflexivity. }
+    destruct (exc_is exc EDeferredCycle); [destruct r as [|parent r']|]; simpl in *;
+      repeat split; simpl; try reflexivity; try lia; exact X.
   - inversion He; subst; simpl in *. subst.
     rewrite N.eqb_refl. destruct ox; simpl; repeat split; simpl; try reflexivity; assumption.
 Qed.
@@ -88,11 +90,14 @@ Proof.
       set (s2' := match o with ORaise ENotReady => mk_mstate (wait_record d (g s2)) (latches s2) | _ => s2 end).
       assert (H2 : gstate_eq (g s2') g1).
       { subst s2'. destruct o as [| |[]]; try exact H1. simpl. eapply gstate_eq_trans; [apply wait_record_core|exact H1]. }
-      pose proof (with_restores (CAwait d) s _ En' s2' None H2) as R. unfold exit_cm in R.
-      destruct (await_exit d (g s2')) as [g3|e' g3]; simpl in R; [|exact R].
-      destruct o; try exact R; (eapply gstate_eq_trans; [apply IHp2|exact R]).
+      pose proof (with_restores (CAwait d) s _ En' s2' (match o with ORaise e => Some e | _ => None end) H2) as R. unfold exit_cm in R.
+      destruct (await_exit d (match o with ORaise e => Some e | _ => None end) (g s2')) as [g3|e' g3]; simpl in R.
+      * destruct o as [| |e]; [eapply gstate_eq_trans; [apply IHp2|exact R]|eapply gstate_eq_trans; [apply IHp2|exact R]|].
+        destruct e; simpl; try exact R. eapply gstate_eq_trans; [apply remember_core|exact R].
+      * destruct e'; simpl; try exact R. eapply gstate_eq_trans; [apply remember_core|exact R].
     + assert (En' : enter (CAwait d) s = EnterRaise e (mk_mstate g' (latches s))) by (unfold enter, lift_enter; rewrite En; reflexivity).
-      simpl. apply (enter_raise_unchanged _ _ _ _ En').
+      destruct (enter_raise_unchanged _ _ _ _ En') as [U ->]. simpl.
+      eapply gstate_eq_trans; [apply remember_core|exact U].
   - destruct (enter c s) as [s1|e s'] eqn:En.
     + pose proof (IHp1 s1) as H1. destruct (eval p1 s1) as [o s2]. simpl in H1.
       pose proof (with_restores c s s1 En s2 (match o with ORaise e => Some e | _ => None end) H1) as R.
@@ -151,7 +156,9 @@ Proof.
   - destruct aw2 as [|top rest]; simpl.
     + split; [reflexivity|]. split; [repeat split; simpl; auto|]. split; [exact L|]. split; [exact NR|split; reflexivity].
     + destruct (N.eqb top d); simpl.
-      * destruct fc2 as [|l r]; simpl; (split; [reflexivity|]); (split; [repeat split; simpl; auto|split; [exact L|split; [exact NR|split; reflexivity]]]);
+      * unfold pop_cycles_frame. simpl.
+        destruct fc2 as [|l r]; simpl; [|destruct (exc_is exc EDeferredCycle); [destruct r as [|parent r']|]; simpl];
+          (split; [reflexivity|]); (split; [repeat split; simpl; auto|split; [exact L|split; [exact NR|split; reflexivity]]]);
           intros x; rewrite E4; reflexivity.
       * split; [reflexivity|]. split; [repeat split; simpl; auto|split; [exact L|split; [exact NR|split; reflexivity]]].
   - destruct hs2 as [|top rest]; simpl.
@@ -193,15 +200,15 @@ Proof.
   destruct (await_enter d (g s1)); destruct (await_enter d (g s2)); exact H.
 Qed.
 
-Lemma await_exit_congr : forall d s1 s2, agree s1 s2 ->
-  match await_exit d (g s1), await_exit d (g s2) with
+Lemma await_exit_congr : forall d exc s1 s2, agree s1 s2 ->
+  match await_exit d exc (g s1), await_exit d exc (g s2) with
   | SOk a, SOk b => agree (mk_mstate a (latches s1)) (mk_mstate b (latches s2))
   | SRaise e a, SRaise e' b => e = e' /\ agree (mk_mstate a (latches s1)) (mk_mstate b (latches s2))
   | _, _ => False
   end.
 Proof.
-  intros d s1 s2 A. pose proof (exit_congr (CAwait d) None s1 s2 A) as [H1 H2]. unfold exit_cm in *.
-  destruct (await_exit d (g s1)); destruct (await_exit d (g s2)); simpl in *; try discriminate; try exact H2.
+  intros d exc s1 s2 A. pose proof (exit_congr (CAwait d) exc s1 s2 A) as [H1 H2]. unfold exit_cm in *.
+  destruct (await_exit d exc (g s1)); destruct (await_exit d exc (g s2)); simpl in *; try discriminate; try exact H2.
   inversion H1. split; [reflexivity|exact H2].
 Qed.
 
@@ -249,11 +256,13 @@ Proof.
       set (t2' := match o1 with ORaise ENotReady => mk_mstate (wait_record d (g t2)) (latches t2) | _ => t2 end).
       assert (A2 : agree t1' t2').
       { subst t1' t2'. destruct o1 as [| |[]]; try exact A1. apply wait_record_congr. exact A1. }
-      pose proof (await_exit_congr d t1' t2' A2) as Ex.
-      destruct (await_exit d (g t1')) as [u|e1 u]; destruct (await_exit d (g t2')) as [v|e2 v]; try contradiction.
-      * destruct o1; [apply IHp2; exact Ex|apply IHp2; exact Ex|split; [reflexivity|exact Ex]].
-      * destruct Ex as [-> Ex]. split; [reflexivity|exact Ex].
-    + destruct En as [-> A1]. split; [reflexivity|exact A1].
+      pose proof (await_exit_congr d (match o1 with ORaise e => Some e | _ => None end) t1' t2' A2) as Ex.
+      destruct (await_exit d (match o1 with ORaise e => Some e | _ => None end) (g t1')) as [u|e1 u];
+        destruct (await_exit d (match o1 with ORaise e => Some e | _ => None end) (g t2')) as [v|e2 v]; try contradiction.
+      * destruct o1 as [| |e]; [apply IHp2; exact Ex|apply IHp2; exact Ex|].
+        destruct e; simpl; try (split; [reflexivity|exact Ex]). split; [reflexivity|]. apply (remember_congr d _ _ Ex).
+      * destruct Ex as [-> Ex]. destruct e2; simpl; try (split; [reflexivity|exact Ex]). split; [reflexivity|]. apply (remember_congr d _ _ Ex).
+    + destruct En as [-> A1]. destruct e'; simpl; try (split; [reflexivity|exact A1]). split; [reflexivity|]. apply (remember_congr d _ _ A1).
   - pose proof (enter_congr c s1 s2 A) as En.
     destruct (enter c s1) as [a|e a]; destruct (enter c s2) as [b|e' b]; try contradiction.
     + destruct (IHp1 a b En) as [O A1].
@@ -334,15 +343,26 @@ Proof.
   destruct c; unfold_steps; simpl in *.
   - inversion He; subst; simpl in *. split; [exact L|split; [exact K|exact ND]].
   - destruct (fl d || kc_mem d _) eqn:F0; inversion He; subst; simpl in *. subst.
-    rewrite N.eqb_refl. simpl. destruct fc2 as [|l r]; simpl in E5; [discriminate|]. simpl in *.
-    split; [simpl; lia|]. split; [intros k; simpl; split|simpl].
-    + intros H. apply filter_In in H. destruct H as [H1 H2]. apply K in H1. apply in_app_or in H1. destruct H1 as [H1|H1]; [|exact H1].
-      apply existsb_eqb_In in H1. rewrite H1 in H2. discriminate.
-    + intros H. apply filter_In. split; [apply K; apply in_or_app; right; exact H|].
-      destruct (existsb (N.eqb k) l) eqn:X; [|reflexivity]. exfalso. apply existsb_eqb_In in X.
-      revert ND H X. clear. induction l as [|a l IH]; simpl; intros ND H X; [contradiction|].
-      inversion ND; subst. destruct X as [<-|X]; [apply H2; apply in_or_app; right; exact H|apply IH; assumption].
-    + revert ND. clear. induction l as [|a l IH]; simpl; intros ND; [exact ND|]. inversion ND; subst. apply IH. assumption.
+    rewrite N.eqb_refl. simpl. destruct fc2 as [|l r]; simpl in E5; [discriminate|]. unfold pop_cycles_frame. simpl in *.
+    assert (FORGET : wf {| depth := dp; awaiting := aw; flags := fun x : N => if (x =? d)%N then false else fl2 x; handlers := hs; nry := nr2;
+                          kc := filter (fun k : N => negb (existsb (N.eqb k) l)) kc2; fcs := r |}).
+    { split; [simpl; lia|]. split; [intros k; simpl; split|simpl].
+      + intros H. apply filter_In in H. destruct H as [H1 H2]. apply K in H1. apply in_app_or in H1. destruct H1 as [H1|H1]; [|exact H1].
+        apply existsb_eqb_In in H1. rewrite H1 in H2. discriminate.
+      + intros H. apply filter_In. split; [apply K; apply in_or_app; right; exact H|].
+        destruct (existsb (N.eqb k) l) eqn:X; [|reflexivity]. exfalso. apply existsb_eqb_In in X.
+        revert ND H X. clear. induction l as [|a l IH]; simpl; intros ND H X; [contradiction|].
+        inversion ND; subst. destruct X as [<-|X]; [apply H2; apply in_or_app; right; exact H|apply IH; assumption].
+      + revert ND. clear. induction l as [|a l IH]; simpl; intros ND; [exact ND|]. inversion ND; subst. apply IH. assumption. }
+    destruct (exc_is exc EDeferredCycle); [destruct r as [|parent r']|]; simpl; try exact FORGET.
+    (* the frame's list is handed to the parent: the same identities, on one list less *)
+    simpl in *. split; [simpl; lia|]. split; [intros k; simpl; split|simpl].
+    + intros H. apply K in H. rewrite <- app_assoc. apply in_app_or in H. destruct H as [H|H]; [apply in_or_app; right; apply in_or_app; left; exact H|].
+      apply in_app_or in H. apply in_or_app. destruct H; [left|right; apply in_or_app; right]; assumption.
+    + intros H. apply K. rewrite <- app_assoc in H. apply in_app_or in H. destruct H as [H|H]; [apply in_or_app; right; apply in_or_app; left; exact H|].
+      apply in_app_or in H. apply in_or_app. destruct H; [left|right; apply in_or_app; right]; assumption.
+    + rewrite <- app_assoc. rewrite app_assoc in ND. rewrite app_assoc.
+      apply (Permutation_NoDup (Permutation_app_tail (concat r') (Permutation_app_comm l parent))). exact ND.
   - inversion He; subst; simpl in *. subst. rewrite N.eqb_refl. destruct ox; simpl; (split; [exact L|split; [exact K|exact ND]]).
 Qed.
 
@@ -361,7 +381,8 @@ Proof.
     destruct o; try exact H1; apply IHp2; exact H1.
   - destruct (wait_blocked d (g s)); [exact W|].
     pose proof (enter_wf (CAwait d) s W) as EW. unfold enter, lift_enter in EW.
-    destruct (await_enter d (g s)) as [g1|e g'] eqn:En; simpl in EW; [|exact EW].
+    destruct (await_enter d (g s)) as [g1|e g'] eqn:En; simpl in EW.
+    2: { destruct e; simpl; try exact EW. apply remember_wf. exact EW. }
     assert (En' : enter (CAwait d) s = EnterOk (mk_mstate g1 (latches s))) by (unfold enter, lift_enter; rewrite En; reflexivity).
     pose proof (IHp1 (mk_mstate g1 (latches s)) EW) as W1.
     pose proof (state_restored p1 (mk_mstate g1 (latches s))) as H1.
@@ -371,9 +392,10 @@ Proof.
     { subst s2'. destruct o as [| |[]]; try exact H1. simpl. eapply gstate_eq_trans; [apply wait_record_core|exact H1]. }
     assert (W2 : wf (g s2')).
     { subst s2'. destruct o as [| |[]]; try exact W1. simpl. apply wait_record_wf. exact W1. }
-    pose proof (exit_wf (CAwait d) s _ En' s2' None H2 W2) as R. unfold exit_cm in R.
-    destruct (await_exit d (g s2')) as [g3|e' g3]; simpl in R; [|exact R].
-    destruct o; try exact R; apply IHp2; exact R.
+    pose proof (exit_wf (CAwait d) s _ En' s2' (match o with ORaise e => Some e | _ => None end) H2 W2) as R. unfold exit_cm in R.
+    destruct (await_exit d (match o with ORaise e => Some e | _ => None end) (g s2')) as [g3|e' g3]; simpl in R.
+    + destruct o as [| |e]; [apply IHp2; exact R|apply IHp2; exact R|]. destruct e; simpl; try exact R. apply remember_wf. exact R.
+    + destruct e'; simpl; try exact R. apply remember_wf. exact R.
   - pose proof (enter_wf c s W) as EW.
     destruct (enter c s) as [s1|e s'] eqn:En; [|exact EW].
     pose proof (IHp1 s1 EW) as W1. pose proof (state_restored p1 s1) as H1.
@@ -444,7 +466,8 @@ Proof.
   destruct c; unfold_steps; simpl in *.
   - discriminate.
   - destruct (fl d || kc_mem d _); inversion He; subst; simpl in *. subst. rewrite N.eqb_refl. simpl.
-    destruct fc2 as [|l r]; simpl in E5; [discriminate|]. simpl. discriminate.
+    destruct fc2 as [|l r]; simpl in E5; [discriminate|]. unfold pop_cycles_frame. simpl.
+    destruct (exc_is exc EDeferredCycle); [destruct r as [|parent r']|]; simpl; discriminate.
   - inversion He; subst; simpl in *. subst. rewrite N.eqb_refl.
     destruct ox; simpl; intros H.
     + left. eapply decision_raises_unrecoverable. exact H.
@@ -482,19 +505,18 @@ Proof.
       set (s2' := match o with ORaise ENotReady => mk_mstate (wait_record d (g s2)) (latches s2) | _ => s2 end).
       assert (R2 : gstate_eq (g s2') g1).
       { subst s2'. destruct o as [| |[]]; try exact R. simpl. eapply gstate_eq_trans; [apply wait_record_core|exact R]. }
-      pose proof (with_exit_action (CAwait d) s _ En' s2' None) as W. unfold exit_cm in W.
-      destruct (await_exit d (g s2')) as [g3|e' g3]; simpl in W.
-      * destruct o; intros H.
+      pose proof (with_exit_action (CAwait d) s _ En' s2' (match o with ORaise e => Some e | _ => None end)) as W. unfold exit_cm in W.
+      destruct (await_exit d (match o with ORaise e => Some e | _ => None end) (g s2')) as [g3|e' g3]; simpl in W.
+      * destruct o as [| |e]; intros H.
         -- apply IHp2 in H. destruct H as [H|H]; [left; apply in_or_app; right; exact H|right; exact H].
         -- apply IHp2 in H. destruct H as [H|H]; [left; apply in_or_app; right; exact H|right; exact H].
-        -- simpl in H. inversion H; subst.
-           assert (X : fst (eval p1 (mk_mstate g1 (latches s))) = ORaise e0) by (rewrite E1; reflexivity).
+        -- assert (H' : e0 = e) by (destruct e; simpl in H; inversion H; reflexivity). subst e0.
+           assert (X : fst (eval p1 (mk_mstate g1 (latches s))) = ORaise e) by (rewrite E1; reflexivity).
            apply IHp1 in X. destruct X as [X|X]; [left; apply in_or_app; left; exact X|right; exact X].
-      * intros H. simpl in H. inversion H; subst.
-        destruct (W e0 R2 eq_refl) as [->|[h Hh]]; [auto 6|discriminate].
+      * intros H. assert (H' : e0 = e') by (destruct e'; simpl in H; inversion H; reflexivity). subst e0.
+        destruct (W e' R2 eq_refl) as [->|[h Hh]]; [auto 6|discriminate].
     + assert (En' : enter (CAwait d) s = EnterRaise e (mk_mstate g' (latches s))) by (unfold enter, lift_enter; rewrite En; reflexivity).
-      intros H. simpl in H. inversion H; subst.
-      destruct (enter_raise_unchanged _ _ _ _ En') as [_ ->]. auto.
+      destruct (enter_raise_unchanged _ _ _ _ En') as [_ ->]. simpl. intros H. inversion H; subst. auto.
   - destruct (enter c s) as [s1|e s'] eqn:En.
     + pose proof (state_restored p1 s1) as R.
       destruct (eval p1 s1) as [o s2] eqn:E1. simpl in R.
